@@ -1,6 +1,7 @@
 use crate::{Ctx, Report};
 pub mod c02;
 pub mod c03;
+pub mod c04;
 pub mod c05;
 pub mod c10;
 pub mod c19;
@@ -11,6 +12,7 @@ pub fn run(name: &str, ctx: &Ctx, rep: &mut Report) -> bool {
   match name {
     "c02" => c02::run(ctx, rep),
     "c03" => c03::run(ctx, rep),
+    "c04" => c04::run(ctx, rep),
     "c05" => c05::run(ctx, rep),
     "c10" => c10::run(ctx, rep),
     "c19" => c19::run(ctx, rep),
